@@ -322,7 +322,7 @@ Proof.
     apply (G1 k sp Hsp) in Er. apply In_keys_omit in Er as [_ N]. apply N; reflexivity.
   - intro N. destruct (spec_required sp) eqn:Er; [reflexivity|]. exfalso. apply N. repeat split.
     + intros k' sp' HI Hr. apply In_keys_omit. split; [apply (H1 k' sp' HI Hr)|].
-      intros ->. rewrite (assoc_In_nodup k sp r ND Hsp) in *.
+      intros ->.
       pose proof (assoc_In_nodup k sp' r ND HI) as E'. rewrite (assoc_In_nodup k sp r ND Hsp) in E'.
       inversion E'; subst. congruence.
     + intros k' x HI. apply In_omit in HI as [HI _]. apply (H2 k' x HI).
@@ -381,4 +381,40 @@ Proof.
   - vm_compute. tauto.
   - exact ex_accept.
   - vm_compute. reflexivity.
+Qed.
+
+(** * Packaged statements used by Properties/C03.v *)
+Lemma C03_accepts_iff_l : forall r a, wf_attrs r = true ->
+  (validate_attrs r a = Errs [] <-> attrs_ok r a) /\
+  (ff_of (validate_attrs r a) = FOk <-> attrs_ok r a).
+Proof. intros r a W. split; [exact (validate_attrs_accepts_iff r a W) | exact (validate_attrs_failfast_ok_iff r a W)]. Qed.
+
+Lemma C03_collect_l : forall r a, wf_attrs r = true ->
+  validate_attrs r a = Errs (map verr_of_aviol (attr_violations r a)) /\
+  ff_of (validate_attrs r a) = match attr_violations r a with
+                               | [] => FOk
+                               | v :: _ => FRaise (class_of (verr_of_aviol v))
+                               end.
+Proof. intros r a W. split; [exact (validate_attrs_collect r a W) | exact (validate_attrs_failfast r a W)]. Qed.
+
+Lemma C03_one_per_violation_l : forall r a, wf_attrs r = true -> NoDup (keys a) ->
+  (forall v, In v (attr_violations r a) <-> violated r a v) /\ NoDup (attr_violations r a).
+Proof.
+  intros r a W ND. split; [intro v; exact (attr_violations_sound_complete r a v W) | exact (attr_violations_NoDup r a W ND)].
+Qed.
+
+Lemma C03_introspection_table_l : forall r k sp, wf_attrs r = true -> In (k, sp) r ->
+  is_required_attribute r k = Some (Some (spec_required sp)) /\
+  allowed_attribute_values r k = Some (map RStr (spec_values sp)).
+Proof. intros r k sp W HI. split; [exact (is_required_reports_table r k sp W HI) | exact (allowed_values_reports_table r k sp W HI)]. Qed.
+
+Lemma C03_from_table (rules : list (pystr * rule_raw)) :
+  forallb (fun r => wf_attrs (rr_attrs (snd r))) rules = true ->
+  forall rn r a, In (rn, r) rules ->
+  (validate_attrs (rr_attrs r) a = Errs [] <-> attrs_ok (rr_attrs r) a) /\
+  validate_attrs (rr_attrs r) a = Errs (map verr_of_aviol (attr_violations (rr_attrs r) a)).
+Proof.
+  intros T rn r a HI.
+  pose proof (proj1 (forallb_forall _ _) T (rn, r) HI) as W. simpl in W.
+  split; [exact (validate_attrs_accepts_iff _ a W) | exact (validate_attrs_collect _ a W)].
 Qed.
